@@ -368,16 +368,33 @@ func c28WorkerMain() {
 		f := strings.Fields(line)
 		n++
 		var res c28Result
-		switch {
-		case len(f) >= 4 && f[0] == "prog":
-			res = c28WorkerProg(base, n, timeout, f[1:])
-		case len(f) >= 1 && f[0] == "opts":
-			res = c28WorkerOpts(base, n, timeout, f[1:])
-		default:
-			res = c28Result{kind: "parse"}
+		done := make(chan c28Result, 1)
+		go func() {
+			switch {
+			case len(f) >= 4 && f[0] == "prog":
+				done <- c28WorkerProg(base, n, timeout, f[1:])
+			case len(f) >= 1 && f[0] == "opts":
+				done <- c28WorkerOpts(base, n, timeout, f[1:])
+			default:
+				done <- c28Result{kind: "parse"}
+			}
+		}()
+		hung := false
+		select {
+		case res = <-done:
+		case <-time.After(timeout + 1500*time.Millisecond):
+			// Run did not come back after its context expired (e.g. `wait` on a blocked process
+			// substitution): report, and exit so that the parent starts a fresh worker.
+			res = c28Result{kind: "hang"}
+			hung = true
 		}
 		out.WriteString(res.line() + "\n")
 		out.Flush()
+		if hung {
+			c28UnblockFifos(filepath.Join(base, fmt.Sprintf("d%d", n)))
+			os.RemoveAll(base)
+			os.Exit(0)
+		}
 		if err != nil {
 			return
 		}
@@ -491,9 +508,12 @@ func (w *c28Worker) do(req string) c28Result {
 			return c28Result{kind: "panic", msg: unhx(f[1]), frames: unhx(f[2]), ran: true}
 		case "timeout":
 			return c28Result{kind: "timeout", ran: true}
+		case "hang":
+			w.stop()
+			return c28Result{kind: "hang", ran: true}
 		}
 		return c28Result{kind: f[0]}
-	case <-time.After(w.timeout*4 + 5*time.Second):
+	case <-time.After(w.timeout + 45*time.Second):
 		w.cmd.Process.Kill()
 		w.cmd.Wait()
 		w.cmd = nil
@@ -534,15 +554,21 @@ type c28Sig struct {
 	id     string
 	msg    *regexp.Regexp
 	frames []string // each must occur in the frame list
+	anyOf  []string // and, when non-empty, at least one of these
 }
 
 var c28Known = []c28Sig{
-	{"C28-shift-negative", regexp.MustCompile(`slice bounds out of range \[-`), []string{"interp.(*Runner).builtin"}},
-	{"C28-getopts-stale-runeidx", regexp.MustCompile(`index out of range`), []string{"interp.(*getopts).next"}},
-	{"C28-arith-lvalue-index", regexp.MustCompile(`variable name must not be empty`), []string{"interp.(*Runner).lookupVar", "expand.Arithm"}},
-	{"C28-assoc-index-not-word", regexp.MustCompile(`interface conversion: syntax\.ArithmExpr is \*syntax\.\w+, not \*syntax\.Word`), nil},
-	{"C28-extglob-unterminated", regexp.MustCompile(`regexp: Compile\(.*\\x00`), nil},
-	{"C28-params-o-nil-stdout", regexp.MustCompile(`nil pointer dereference`), []string{"interp.(*Runner).outf", "interp.Params"}},
+	{"C28-shift-negative", regexp.MustCompile(`slice bounds out of range \[-`), []string{"interp.(*Runner).builtin"}, nil},
+	{"C28-getopts-stale-runeidx", regexp.MustCompile(`index out of range`), []string{"interp.(*getopts).next"}, nil},
+	{"C28-arith-lvalue-index", regexp.MustCompile(`variable name must not be empty`), []string{"interp.(*Runner).lookupVar", "expand.Arithm"}, nil},
+	{"C28-empty-variable-name", regexp.MustCompile(`variable name must not be empty`), []string{"interp.(*Runner).lookupVar"},
+		[]string{"interp.(*Runner).builtin", "interp.(*Runner).unTest"}},
+	{"C28-assoc-index-not-word", regexp.MustCompile(`interface conversion: syntax\.ArithmExpr is \*syntax\.\w+, not \*syntax\.Word`), nil,
+		[]string{"expand.(*Config).varInd", "expand.(*Config).assignElem", "interp.(*Runner).assignVal"}},
+	{"C28-preinc-postinc", regexp.MustCompile(`interface conversion: syntax\.ArithmExpr is \*syntax\.UnaryArithm, not \*syntax\.Word`), []string{"expand.Arithm"}, nil},
+	{"C28-test-nonword-operand", regexp.MustCompile(`interface conversion: syntax\.TestExpr is \*syntax\.\w+, not \*syntax\.Word`), []string{"interp.(*Runner).bashTest"}, nil},
+	{"C28-extglob-unterminated", regexp.MustCompile(`regexp: Compile\(.*\\x00`), nil, nil},
+	{"C28-params-o-nil-stdout", regexp.MustCompile(`nil pointer dereference`), []string{"interp.(*Runner).outf"}, []string{"interp.Params", "interp.New"}},
 }
 
 func c28Classify(msg, frames string) string {
@@ -555,6 +581,15 @@ func c28Classify(msg, frames string) string {
 			if !strings.Contains(frames, f) {
 				ok = false
 			}
+		}
+		if len(s.anyOf) > 0 {
+			any := false
+			for _, f := range s.anyOf {
+				if strings.Contains(frames, f) {
+					any = true
+				}
+			}
+			ok = ok && any
 		}
 		if ok {
 			return s.id
